@@ -41,6 +41,9 @@ func init() {
 		Oracles:    func(w *World) []Oracle { return nil },
 		TweakCfg: func(r *Rng, cfg *Config) {
 			cfg.Knobs["env_faults"] = int64(r.Intn(2))
+			if strings.HasPrefix(cfg.Scenario, "cdp") && r.Bool() {
+				cfg.Knobs["sister_app"] = 1 // sweep steps that fail on their own in every block
+			}
 			if strings.HasPrefix(cfg.Scenario, "dex") {
 				// incentive hook under stress: gauges (some with a deposit beyond 64 bits), epochs that do trigger
 				cfg.Knobs["whale"] = int64(r.Intn(2))
@@ -85,6 +88,9 @@ func init() {
 			if cfg.Scenario == "cdp" && r.Chance(1, 4) {
 				cfg.Knobs["v1"] = 1
 			}
+			if r.Chance(1, 3) {
+				cfg.Knobs["sister_app"] = 1
+			}
 		},
 		Essential: []string{"c01.checked_with_open_vaults"},
 		BatchProbe: []string{"c01.checked_with_open_vaults", "c01.checked_with_locked_vaults", "c01.checked_after_emergency_redemption"},
@@ -99,6 +105,12 @@ func init() {
 		TweakCfg: func(r *Rng, cfg *Config) {
 			if cfg.Scenario == "cdp+ctl" && r.Chance(2, 3) {
 				cfg.Knobs["esm"] = 1 // emergency shutdown can be executed in this run
+			}
+			if cfg.Scenario == "cdp" && r.Chance(1, 4) {
+				cfg.Knobs["v1"] = 1 // first-generation liquidate message and dutch bids (their close burns the principal)
+				if r.Bool() {
+					cfg.Knobs["liq_v2"] = 0
+				}
 			}
 		},
 		Essential: []string{"c02.mint_checked", "c02.retire_checked"},
@@ -118,6 +130,9 @@ func init() {
 				cfg.Knobs["liq_v2"] = 1
 			}
 			cfg.Knobs["path_mode"] = []int64{pathCrash, pathSaw, pathWalk, pathCrash}[r.Intn(4)]
+			if r.Bool() {
+				cfg.Knobs["sister_app"] = 1 // vaults of an app that is not whitelisted for liquidation sit in the same sweep list
+			}
 			if r.Chance(1, 3) {
 				cfg.Knobs["v1"] = 1 // the app is also whitelisted for the first-generation liquidate message
 				if r.Bool() {
@@ -178,6 +193,9 @@ func init() {
 		ID: "C16", Level: "exploration", Scenarios: []string{"cdp"},
 		NewHarness: func(spec *PropSpec) Harness { return &c16Harness{spec: spec} },
 		TweakCfg: func(r *Rng, cfg *Config) {
+			if strings.HasPrefix(cfg.Scenario, "cdp") && r.Chance(1, 3) {
+				cfg.Knobs["sister_app"] = 1
+			}
 			if cfg.Scenario == "cdp+ctl" {
 				cfg.Knobs["esm"] = 1 // the emergency shutdown is executed (its records carry times)
 				cfg.Knobs["esm_fast"] = 1
@@ -227,7 +245,7 @@ func registerDerived() {
 	props["C12"] = &PropSpec{
 		ID: "C12", Level: "exploration",
 		Oracles:    func(w *World) []Oracle { return []Oracle{&c12Oracle{}} },
-		Quick:      Budget{Runs: 150, MaxEvents: 160},
+		Quick:      Budget{Runs: 320, MaxEvents: 160},
 		Thorough:   Budget{Runs: 2400, MaxEvents: 400},
 		Essential:  []string{"c12.non_owner_attempt"},
 		TweakCfg: func(r *Rng, cfg *Config) {
